@@ -75,10 +75,14 @@ CHECK_TEXT["C14"] = {
              "for every name and operand and have no external/unsafe ingredient, so the same type and key give the same id in every process; "
              "StableTypeID<->u128, u128<->Compact128 and the QueryID accessors are lossless, so two queries share a slot only if both 128-bit components "
              "coincide. DISTINCTNESS of ids for distinct types is a collision property that no sound contract can state; it is decided only on a bounded, "
-             "generated universe of 6006 types evaluated on the real crate in two separate processes (labelled bounded)."),
+             "generated universe of 6264 types (every leaf type with an Identifiable impl) and a crafted family of type names, evaluated on the real crate in two "
+             "separate processes (labelled bounded). read_u64_le is proved to return exactly the little-endian value of its block (no byte of a name is dropped or "
+             "overlaid before mixing). Because a query id is the stable hash of the query key and a store slot is addressed by type id, the check also re-establishes "
+             "C13's framing of the key stream (incl. write_usize/isize full width: Verus + Kani) and the column addressing of both backends' write paths (C11 units), "
+             "and runs the real-backend drivers (store slots of crafted ids; both write paths)."),
     "design_ref": "DESIGN.md section 5 (C14)",
     "note": ("The claim is deliberately narrow: totality/purity/losslessness are proved; distinctness is bounded-checked, not proved. The Identifiable impl table, "
-             "derive macro and column-family naming are not under contract."),
+             "derive macro and column-family naming (format!) are not under contract (bounded runs only)."),
     "technique": "contract-based deductive verification (Verus, bit-vector lemmas) for totality and lossless conversions; bounded evaluation of a generated type universe for distinctness",
 }
 
@@ -100,8 +104,11 @@ CHECK_TEXT["C09"] = {
              "oldest operation on top; apply_message_to_heap keeps every appended operation and a flush removes EXACTLY the operations of flushed epochs "
              "(multiset equality with the filter epoch > e: no unflushed operation is ever dropped); replay computes, for every element, what its LAST "
              "operation in issue order says; lemma: overlaying that snapshot on any base set equals applying all operations in issue order (idempotent over an "
-             "already flushed prefix). These contracts did not hold on the original tree (finding F2, fixed). Everything else of the property -- the wide-column "
-             "caches, eviction, single-flight, flush races -- is exercised only by a bounded run on the real code."),
+             "already flushed prefix). These contracts did not hold on the original tree (finding F2, fixed). Entry state machine of the wide-column caches: the "
+             "closures WideColumnCache::insert / ::remove run on the locked entry carry closure contracts (value written / absence remembered, pin count +1 iff the "
+             "batch updated the key, an entry with pins > 0 is never dropped). Re-established here because read-your-writes rests on them: the commit kernel "
+             "(notification only after commit) and the cache policy with its atomic remove closure (a pinned entry is never evicted). Single-flight fills, flush races "
+             "and the set cache's entry handling are exercised only by a bounded run on the real code."),
     "design_ref": "DESIGN.md section 5 (C09), section 7 (F2)",
     "note": ("Partial claim. Read-your-writes of the three cached maps as a whole is a concurrent property and is NOT proved; the bounded run samples histories "
              "with an uncontrolled background writer."),
